@@ -11,7 +11,6 @@ import (
 	"strings"
 	"unicode/utf8"
 
-	"github.com/pentops/j5/lib/id62"
 )
 
 var uuidRe = regexp.MustCompile(`^[0-9a-fA-F]{8}-[0-9a-fA-F]{4}-[0-9a-fA-F]{4}-[0-9a-fA-F]{4}-[0-9a-fA-F]{12}$`)
@@ -193,7 +192,7 @@ func tyOK(env EnumEnv, t FTy, v Value) bool {
 		case KUuid:
 			return uuidRe.MatchString(v.S)
 		case KId62:
-			return id62.Pattern.MatchString(v.S)
+			return id62Text(v.S) // the declared meaning, not the pattern the code under test publishes
 		case KCustom:
 			return regexp.MustCompile(t.KPat).MatchString(v.S)
 		}
@@ -219,6 +218,22 @@ func patternCompiles(pat string) bool {
 }
 
 // patternsOK: every pattern the declaration carries is a valid RE2 expression
+// id62Text: key:id62 as the schema language defines it — 22 characters of 0-9 A-Z a-z
+// (RulesSpec.id62_text). Independent of lib/id62's PatternString, so that a change of the
+// published pattern shows as a verdict that differs from the declared rule.
+func id62Text(s string) bool {
+	if len(s) != 22 {
+		return false
+	}
+	for i := 0; i < len(s); i++ {
+		c := s[i]
+		if !(c >= '0' && c <= '9' || c >= 'A' && c <= 'Z' || c >= 'a' && c <= 'z') {
+			return false
+		}
+	}
+	return true
+}
+
 func patternsOK(p Prop) bool {
 	switch p.T.Kind {
 	case TStr:
